@@ -73,6 +73,8 @@ def schedules(tier):
     # a long-lived session: 250 exchanges, each of which first skips a non-matching datagram, then an unanswered request -
     # whatever the receive path re-arms or restores per request must not drift
     out.append({"name": "L-after-250-strayed-exchanges", "warmup": 250, "strays": [], "reply": None, "expect": "timeout", "sync_only": False})
+    # a timeout above one second: an early stray, then the reply after more than a second but well inside the timeout
+    out.append({"name": "T-long-timeout-early-stray", "T": 1.7, "strays": [0.06], "reply": 0.7, "expect": "value"})
     out.append({"name": "H-timeout-then-late-reply", "seq": [
         {"name": "H1a", "strays": [0.6], "reply": None, "expect": "timeout"},
         {"name": "H1b", "strays": [], "reply": 0.75, "expect": "value"},
@@ -88,9 +90,10 @@ def run_case(cfg, agent, drv, sch, serial):
         def f(req):
             if not req.ok:
                 return None
-            evs = [(t * T, "stray") for t in sch["strays"]]
+            TT = sch.get("T", T)
+            evs = [(t * TT, "stray") for t in sch["strays"]]
             if sch["reply"] is not None:
-                evs.append((sch["reply"] * T, "reply"))
+                evs.append((sch["reply"] * TT, "reply"))
             evs.sort()
             out = []
             one = agent.reply(req, [B.enc_varbind(OID, B.enc_int(666))], request_id=(req.request_id + 1) & 0x7FFFFFFF) if sch.get("dup_burst") else None
@@ -175,7 +178,7 @@ def run_case(cfg, agent, drv, sch, serial):
 
 
 def judge(sch, out, dur, serial):
-    bound = T + SLACK
+    bound = sch.get("T", T) + SLACK
     if sch["expect"] == "timeout":
         if out[0] == "ok":
             return "late", "a reply that arrived %.2f x timeout after the request was delivered (value %r); the call must have raised TimeoutError at %.2fs" % (sch["reply"] or 0, out[1], T)
@@ -200,10 +203,10 @@ def worker(job):
     res = {"cases": 0, "bad": [], "inconclusive": [], "durations": [], "classes": {}}
     agent = rigp.Agent(None, users=[cfg.user_keys()]).start()
 
-    def mk(policed=False):
+    def mk(policed=False, timeout=None):
         agent.handler = lambda a, r: a.discovery_or(r, lambda q: a.reply(q, []))
         kw = {"limit_rps": 1.0 / (0.8 * T)} if policed else {}
-        d = driver.Driver(cfg, agent, timeout=T, **kw).create()
+        d = driver.Driver(cfg, agent, timeout=timeout or T, **kw).create()
         d.call("open")
         return d
     drv = mk()
@@ -226,8 +229,14 @@ def worker(job):
             if sch.get("policed") or cur_hist is not None:
                 drv.close()
                 drv = mk(sch.get("policed", False))
+        if sch.get("T"):
+            drv.close()
+            drv = mk(timeout=sch["T"])
         serial += 1
         out, dur, drift, rel = run_case(cfg, agent, drv, sch, serial)
+        if sch.get("T"):
+            drv.close()
+            drv = mk()
         res["cases"] += 1
         res["classes"][sch["name"]] = 1
         res["durations"].append((sch["name"], round(dur, 3)))
@@ -243,7 +252,7 @@ def worker(job):
             for _ in range(3):
                 time.sleep(T * 2)
                 drv.close()
-                drv = mk(sch.get("policed", False))
+                drv = mk(sch.get("policed", False), timeout=sch.get("T"))
                 if sch.get("keep_session"):
                     # replay the whole history up to this step on the fresh session
                     for prev in flat:
@@ -257,7 +266,7 @@ def worker(job):
                 o2, d2, dr2, rel2 = run_case(cfg, agent, drv, sch, serial)
                 v2 = judge(sch, o2, d2, serial)
                 want = sorted(sch["strays"] + ([sch["reply"]] if sch["reply"] is not None else []))
-                on_time = len(rel2) == len(want) and all(abs(r - w * T) < 0.08 for r, w in zip(rel2, want))
+                on_time = len(rel2) == len(want) and all(abs(r - w * sch.get("T", T)) < 0.08 for r, w in zip(rel2, want))
                 if sch["name"].startswith("E-edge"):
                     on_time = len(rel2) == len(want)  # the burst is sub-millisecond by design
                 notes.append((round(d2, 3), round(dr2, 3), on_time, v2[0] if v2 else None))
